@@ -364,90 +364,203 @@ func monC14(h *Hist, o *TxnObs) {
 
 // ---- C15: read markers charge once -----------------------------------------------------------------------------------------------
 
+// rmWire is a read marker as the transaction input carries it (decoded by the monitor itself, not taken from the generator).
+type rmWire struct {
+	ClientID  string `json:"client_id"`
+	PublicKey string `json:"client_public_key"`
+	BlobberID string `json:"blobber_id"`
+	AllocID   string `json:"allocation_id"`
+	OwnerID   string `json:"owner_id"`
+	Timestamp int64  `json:"timestamp"`
+	Counter   int64  `json:"counter"`
+	Signature string `json:"signature"`
+}
+
+// rmModel is the monitor's own reference: last redeemed counter per (blobber, client, allocation), built from the inputs of the
+// read_redeem transactions it saw succeed.
+type rmModel struct {
+	Last map[string]int64
+	Seen map[string]bool
+}
+
+func rmModelOf(h *Hist) *rmModel {
+	m, _ := h.Vars["rmC15"].(*rmModel)
+	if m == nil {
+		m = &rmModel{Last: map[string]int64{}, Seen: map[string]bool{}}
+		h.Vars["rmC15"] = m
+	}
+	return m
+}
+
+// rmPools returns the balance of every read pool node of a snapshot (contract key -> balance).
+func rmPools(h *Hist, s snap.Snapshot) map[string]uint64 {
+	out := map[string]uint64{}
+	for _, n := range h.NodesOfType(s, "*storagesc.readPool") {
+		out[n.Key] = U(n.Val, "Balance")
+	}
+	return out
+}
+
+// rmStoredCounters returns the counter of every stored last-read-marker node.
+func rmStoredCounters(h *Hist, s snap.Snapshot) map[string]int64 {
+	out := map[string]int64{}
+	for _, n := range h.NodesOfType(s, "*storagesc.ReadConnection") {
+		out[n.Key] = I(n.Val, "ReadMarker.ReadCounter")
+	}
+	return out
+}
+
 func monC15(h *Hist, o *TxnObs) {
 	if storageFn(o) != "read_redeem" {
 		return
 	}
-	m, _ := o.Call.Meta["marker"].(map[string]interface{})
-	if m == nil {
+	var in struct {
+		RM *rmWire `json:"read_marker"`
+	}
+	decoded := json.Unmarshal(o.Txn.InputData, &in) == nil && in.RM != nil
+	run := h.Runs["C15"]
+	h.C("C15", "read_redeems_judged")
+	if run != nil {
+		run.Eval(1)
+	}
+	pre, post := rmPools(h, o.Pre), rmPools(h, o.Post)
+	var charged int64
+	var changed []string
+	for k, b := range post {
+		if a := pre[k]; a != b {
+			charged += int64(a) - int64(b)
+			changed = append(changed, k)
+		}
+	}
+	for k, a := range pre {
+		if _, ok := post[k]; !ok {
+			charged += int64(a)
+			changed = append(changed, k)
+		}
+	}
+	if !decoded {
+		h.C("C15", "undecodable_markers_judged")
+		if run != nil {
+			run.Distinct(fmt.Sprintf("%s|%s|undecodable", o.Call.Mut, o.Outcome))
+		}
+		if o.Outcome == "success" {
+			h.V("C15", "undecodable-marker-redeemed", "read_redeem succeeded although its input carries no read marker", o)
+		}
+		if len(changed) > 0 {
+			h.V("C15", "unredeemed-marker-changed-read-pool", fmt.Sprintf("read_redeem (%s) without a decodable marker changed %d read pools", o.Outcome, len(changed)), o)
+		}
 		return
 	}
-	num := func(k string) int64 {
-		switch v := m[k].(type) {
-		case int64:
-			return v
-		case int:
-			return int64(v)
-		case uint64:
-			return int64(v)
-		case float64:
-			return int64(v)
-		}
-		return 0
+	rm := in.RM
+	model := rmModelOf(h)
+	key := rm.BlobberID + "|" + rm.ClientID + "|" + rm.AllocID
+	last, later := model.Last[key], model.Seen[key]
+	// who signed? the monitor knows every key pair the harness created: the marker must verify under the key of the wallet whose id is client_id
+	hash := stHash(stRMHashData(rm.AllocID, rm.BlobberID, rm.ClientID, rm.PublicKey, rm.OwnerID, rm.Counter, rm.Timestamp))
+	byClient, keyOfClient, signedBy := rmSignedBy(h, rm.ClientID, rm.PublicKey, rm.Signature, hash)
+	rel := "first"
+	switch {
+	case later && rm.Counter > last:
+		rel = "forward"
+	case later && rm.Counter == last:
+		rel = "same"
+	case later:
+		rel = "older"
+	case rm.Counter <= 0:
+		rel = "first-not-positive"
 	}
-	str := func(k string) string { s, _ := m[k].(string); return s }
-	client, alloc, blobber, signer := str("client"), str("alloc"), str("blobber"), str("signer")
-	counter := num("counter")
-	ref, _ := h.Vars["c15"].(map[string]int64)
-	if ref == nil {
-		ref = map[string]int64{}
-		h.Vars["c15"] = ref
+	sigClass := "client-key"
+	switch {
+	case byClient:
+	case signedBy != "":
+		sigClass = "foreign-key-valid-sig" // carries another wallet's public key and verifies under it
+	case !keyOfClient:
+		sigClass = "foreign-key-no-valid-sig"
+	default:
+		sigClass = "client-key-bad-sig"
 	}
-	key := blobber + "|" + client + "|" + alloc
-	h.C("C15", "read_redeems_judged")
-	if r := h.Runs["C15"]; r != nil {
-		r.Eval(1)
-		rel := "fresh"
-		if counter <= ref[key] {
-			rel = "stale"
+	if later {
+		h.C("C15", "second_or_later_markers_judged")
+		if sigClass == "foreign-key-valid-sig" {
+			h.C("C15", "second_or_later_markers_with_forged_key_judged")
 		}
-		r.Distinct(fmt.Sprintf("%s|%s|%s|signer_is_client=%v", o.Call.Mut, o.Outcome, rel, signer == client))
+		if rel == "same" || rel == "older" {
+			h.C("C15", "replayed_or_older_markers_judged")
+		}
+	} else if sigClass == "foreign-key-valid-sig" {
+		h.C("C15", "first_markers_with_forged_key_judged")
 	}
-	// read pools in pre/post
-	pools := func(s snap.Snapshot) map[string]uint64 {
-		out := map[string]uint64{}
-		for _, n := range h.NodesOfType(s, "*storagesc.readPool") {
-			out[n.Key] = U(n.Val, "Balance")
+	if run != nil {
+		run.Distinct(fmt.Sprintf("%s|%s|%s|%s", o.Call.Mut, o.Outcome, rel, sigClass))
+	}
+	// stored counters only move forward, whatever the outcome
+	if o.Outcome != "rejected" {
+		preC, postC := rmStoredCounters(h, o.Pre), rmStoredCounters(h, o.Post)
+		for k, a := range preC {
+			if b, ok := postC[k]; ok && b < a {
+				h.V("C15", "stored-read-counter-moved-backwards", fmt.Sprintf("stored read counter %d -> %d", a, b), o)
+			}
 		}
-		return out
 	}
 	if o.Outcome != "success" {
-		// a failed / rejected redeem charges nothing (C02 covers the whole diff; stated here for the read pool)
+		// a marker that was not redeemed charges nothing
+		h.C("C15", "unredeemed_markers_checked")
+		if len(changed) > 0 {
+			h.V("C15", "unredeemed-marker-changed-read-pool", fmt.Sprintf("read_redeem %s (%s), yet %d read pools changed (net debit %d)", o.Outcome, trunc(o.Txn.TransactionOutput, 100), len(changed), charged), o)
+		}
 		return
 	}
-	if counter <= ref[key] {
-		h.V("C15", "stale-or-replayed-marker-redeemed", fmt.Sprintf("marker with counter %d redeemed although %d was already redeemed for this blobber/client/allocation", counter, ref[key]), o)
-	}
-	if signer != client {
-		h.V("C15", "marker-signed-by-foreign-key-redeemed", fmt.Sprintf("marker for client %s signed by %s was redeemed", h.name(client), h.name(signer)), o)
-	}
-	pre, post := pools(o.Pre), pools(o.Post)
-	var charged int64
-	changedPools := 0
-	for k, a := range pre {
-		if b := post[k]; b != a {
-			charged += int64(a) - int64(b)
-			changedPools++
+	h.C("C15", "redeemed_markers_checked")
+	if !byClient {
+		who := "a key unknown to the harness"
+		if signedBy != "" {
+			who = "the key of " + h.name(signedBy)
 		}
+		h.V("C15", "marker-signed-by-foreign-key-redeemed", fmt.Sprintf("marker for client %s (%s marker of this blobber/client/allocation, counter %d -> %d) carries %s and was redeemed: read pool debited %d",
+			h.name(rm.ClientID), map[bool]string{true: "later", false: "first"}[later], last, rm.Counter, who, charged), o)
 	}
-	// expected charge: read price * newly read size (64 KiB blocks), price taken from the allocation terms in the pre-state
+	if later && rm.Counter < last {
+		h.V("C15", "stale-or-replayed-marker-redeemed", fmt.Sprintf("marker with counter %d redeemed although %d was already redeemed for this blobber/client/allocation", rm.Counter, last), o)
+	}
+	// the charge: read price (terms of that blobber in that allocation, pre-state) * newly read size (64 KiB blocks) since the model's last counter
 	var price uint64
-	if a := h.allocations(o.Pre)[alloc]; a != nil {
+	if a := h.allocations(o.Pre)[rm.AllocID]; a != nil {
 		for _, b := range a.Blobbers {
-			if b.BlobberID == blobber {
+			if b.BlobberID == rm.BlobberID {
 				price = b.ReadPrice
 			}
 		}
 	}
-	delta := counter - ref[key]
+	delta := rm.Counter - last
+	if delta < 0 {
+		delta = 0
+	}
 	want := float64(delta) * 64 * 1024 / (1024 * 1024 * 1024) * float64(price)
-	if changedPools > 1 {
-		h.V("C15", "several-read-pools-charged", fmt.Sprintf("%d read pools changed by one redeem", changedPools), o)
+	if len(changed) > 1 {
+		h.V("C15", "several-read-pools-charged", fmt.Sprintf("%d read pools changed by one redeem", len(changed)), o)
+	}
+	for _, k := range changed {
+		if !strings.HasSuffix(k, ":readpool:"+rm.ClientID) {
+			h.V("C15", "foreign-read-pool-charged", fmt.Sprintf("redeem of a marker of client %s changed read pool %q", h.name(rm.ClientID), k), o)
+		}
 	}
 	if diff := float64(charged) - want; diff > 1.5 || diff < -1.5 {
-		h.V("C15", "read-charge-differs-from-price-times-size", fmt.Sprintf("counter %d -> %d (%d blocks) at read price %d/GB: expected charge %.1f, read pool debited %d", ref[key], counter, delta, price, want, charged), o)
+		sig := "read-charge-differs-from-price-times-size"
+		if delta == 0 {
+			sig = "replayed-or-older-marker-charged"
+		}
+		h.V("C15", sig, fmt.Sprintf("counter %d -> %d (%d new blocks) at read price %d/GB: expected charge %.1f, read pool debited %d", last, rm.Counter, delta, price, want, charged), o)
 	}
-	ref[key] = counter
+	if want >= 1 {
+		h.C("C15", "paid_redeems_checked")
+	}
+	if delta == 0 {
+		h.C("C15", "obs_same_counter_marker_accepted_without_charge")
+	}
+	if rm.Counter > last {
+		model.Last[key] = rm.Counter
+	}
+	model.Seen[key] = true
 }
 
 // ---- C24: free storage ------------------------------------------------------------------------------------------------------------
